@@ -34,10 +34,11 @@ def confirm(name, wt, out, flags):
     tests_pass = "100% tests passed" in o
     demo = os.path.join(out, "demo.cpp")
     fl = " ".join(flags)
-    rc1, o1 = sh(f"g++ -std=c++17 {fl} -I{wt}/src {demo} -o {out}/demo_mut && timeout 60 {out}/demo_mut", cwd=out)
-    sh("git stash", cwd=wt)
+    rc1, o1 = sh(f"g++ -std=c++17 {fl} -I{wt}/src {demo} -o {out}/demo_mut && timeout 120 {out}/demo_mut", cwd=out)
+    # (no git stash: the stash is shared between worktrees)
+    sh("git checkout -- src", cwd=wt)
     rc0, o0 = sh(f"g++ -std=c++17 {fl} -I{wt}/src {demo} -o {out}/demo_orig && timeout 60 {out}/demo_orig", cwd=out)
-    sh("git stash pop", cwd=wt)
+    sh(f"git apply {patch}", cwd=wt)
     ok = tests_pass and rc1 != 0 and rc0 == 0
     print(f"tests_pass={tests_pass} demo_with_change_rc={rc1} demo_without_rc={rc0} => {'CONFIRMED' if ok else 'NOT CONFIRMED'}")
     if not ok:
